@@ -49,10 +49,21 @@ def msg_label(names):
     return f
 
 
-def check_sequences(ctx, body, table, full, iter_seq, rule, what):
+def literal_visits(body):
+    """1 + the length of the longest array literal of the body: the number of visits of a loop head that unrolls a `for` over a literal list
+    completely (sym.PathState._list_call gives the iterator its elements one by one)"""
+    k = 0
+    for bl in body.blocks:
+        for s in bl['stmts']:
+            if s['s'] == 'assign' and s['rv']['rv'] == 'agg' and s['rv']['kind'] == 'array':
+                k = max(k, len(s['rv']['ops']))
+    return k + 1
+
+
+def check_sequences(ctx, body, table, full, iter_seq, rule, what, max_visits=1):
     P = ctx.prog
     n_ok = n_cut = n_err = 0
-    for path, st in feasible_paths(body, P, limit=200000):
+    for path, st in feasible_paths(body, P, limit=200000, max_visits=max_visits):
         v = strip(st.env.get(0))
         seq = label_seq(st, table)
         rk = ret_kind(st.env.get(0))
@@ -136,10 +147,13 @@ def run(ctx):
         cf = path_calls(st, 'core::mcs::read_channel_join_confirm')
         if js and cf:
             a_uid, a_cid = resolve(st, js[0][2][0]), resolve(st, js[0][2][1])
-            uid_ok = any(n[0] == 'field' and n[2] == 'user_id' for n in walk(a_uid))
+            def is_uid(e):
+                # the server-assigned user id: the user_id field, or the value it is stored from (the attach-user confirm) on this path
+                return any(n[0] == 'field' and n[2] == 'user_id' for n in walk(e)) or has_call(e, 'core::mcs::read_attach_user_confirm')
+            uid_ok = is_uid(a_uid)
             cid_ok = has_call(a_cid, re.compile(r'hash_map::Values.*Iterator>::next$'))
             c_uid, c_cid = resolve(st, cf[0][2][0]), resolve(st, cf[0][2][1])
-            cf_ok = any(n[0] == 'field' and n[2] == 'user_id' for n in walk(c_uid)) and has_call(c_cid, re.compile(r'hash_map::Values.*Iterator>::next$'))
+            cf_ok = is_uid(c_uid) and has_call(c_cid, re.compile(r'hash_map::Values.*Iterator>::next$'))
             ctx.check(uid_ok and cid_ok and cf_ok, 'R03.5', 'mcs:join_ids',
                       'each join request carries the attached user id and the iterated channel id, and the confirm is checked against the same pair', mc.where(),
                       'channel join request/confirm do not use the server-assigned user id and the channel being joined')
@@ -181,7 +195,7 @@ def run(ctx):
         return 'data:?'
     table = [('core::global::Client::write_data_pdu', fin_label)]
     full = ['synchronize', 'control:CtrlactionCooperate', 'control:CtrlactionRequestControl', 'font-list']
-    ok, _, _ = check_sequences(ctx, wf, table, full, [], 'R03.4', 'write_client_finalize')
+    ok, _, _ = check_sequences(ctx, wf, table, full, [], 'R03.4', 'write_client_finalize', max_visits=literal_visits(wf))
     ctx.floor('R03.4', 'success paths of write_client_finalize', ok, 1)
     ctx.check(P.enum_discr('core::global::Action', 'CtrlactionCooperate') == 4 and P.enum_discr('core::global::Action', 'CtrlactionRequestControl') == 1
               and P.enum_discr('core::global::Action', 'CtrlactionGrantedControl') == 2,
